@@ -15,7 +15,7 @@ from ..model_ac import ModelAC
 ID = "C08"
 LEVEL = "fault_enumeration"
 SHARDS = {"quick": 8, "thorough": 16}
-RULE = ("Part A (exhaustive): retry budget r in 1..4 (quick: 1..3); each transmission i<r is either never answered or answered "
+RULE = ("part D: get_capabilities() against a unit that serves two pages, the request for page 0 or page 1 hit by {drop, error packet, garbage, close, reset}: the call returns without raising and the next refresh() succeeds. Part A (exhaustive): retry budget r in 1..4 (quick: 1..3); each transmission i<r is either never answered or answered "
         "after a delay from {0.05,1.0,1.95,2.05,3.0,3.95,4.05,6.5} s; V2 and V3; oracle = reference model of the retry loop "
         "(transmissions at 0,2,4,.. while nothing has arrived; return at the earliest arrival T*<2r with floor(T*/2)+1 "
         "byte-identical transmissions, else TimeoutError at 2r after exactly r) compared on transmission count, virtual return "
@@ -410,7 +410,74 @@ def check_faults(case: dict):
     return None
 
 
+def check_caps(case: dict):
+    """Part D: a device-level call that consists of two exchanges (capabilities in two pages); one of the two is hit by a
+    fault.  The call must not raise (a failed exchange is 'no response'), and the next refresh must succeed."""
+    from msmart.device import AirConditioner as AC
+    from .. import model_ac as M
+    version = case["version"]
+    net = vloop.Net()
+    out = {}
+
+    async def main(loop):
+        m = ModelAC()
+        recs = [M.cap_record(0x0214, b"\x01"), M.cap_record(0x0212, b"\x01"), M.cap_record(0x0216, b"\x01"), M.cap_record(0x021F, b"\x01")]
+        m.cap_pages = [(recs[:2], b"\x01\x00"), (recs[2:], b"")]
+        dev = SimDevice(loop, version=version, device_id=9, token=TOKEN, key=KEY, ac=m)
+        net.listen("10.0.0.9", 6444, dev)
+        state = {"n": 0, "armed": False}
+
+        def on_data(dev_, conn, frame):
+            if not state["armed"]:
+                return None
+            try:
+                is_caps = rc.frame_parse(frame).body[0] == 0xB5
+            except Exception:
+                is_caps = False
+            if not is_caps:
+                return None
+            page = state["n"]
+            if frame != state.get("last"):
+                state["last"] = frame
+                state["n"] += 1
+                page = state["n"] - 1
+            else:
+                page = state["n"] - 1
+            if page == case["page"]:
+                f = case["fault"]
+                return {"drop": ("drop",), "error": ("error",), "garbage": ("garbage", b"\x00\x11\x22\x33"), "close": ("close",), "reset": ("reset",)}[f]
+            return None
+        dev.on_data = on_data
+        ac = AC(ip="10.0.0.9", port=6444, device_id=9)
+        if version == 3:
+            await ac.authenticate(TOKEN, KEY)
+        await ac.refresh()
+        state["armed"] = True
+        try:
+            await ac.get_capabilities()
+        except BaseException as e:
+            out["exc"] = e
+        state["armed"] = False
+        out["requests"] = list(m.cap_requests)
+        await ac.refresh()
+        out["online"] = ac.online
+        try:
+            ac._lan._disconnect()
+        except Exception:
+            pass
+
+    vloop.run(main, net)
+    if "exc" in out:
+        e = out["exc"]
+        return (f"caps/raises/{type(e).__name__}", f"get_capabilities() raised {e!r} when its page-{case['page']} request hit fault {case['fault']!r}")
+    if not out["online"]:
+        return ("caps/recovery", f"refresh after the faulty capability query reports offline (fault {case['fault']} on page {case['page']})")
+    return None
+
+
 def check_case(case: dict):
+    if case["part"] == "D":
+        return check_caps(case)
     if case["part"] == "A":
         return check_retry(case)
     if case["part"] == "A2":
@@ -424,6 +491,10 @@ def replay(ctx, case):
 
 def _run_one(ctx, case):
     import json
+    if case["part"] == "D":
+        ctx.case(hash(json.dumps(case, sort_keys=True)), True, cls=f"D/v{case['version']}/page{case['page']}")
+        ctx.sample("D", case)
+        return check_case(case)
     if case["part"] == "A":
         want, t, n = reference_retry(case["r"], case["pattern"])
         nt = n > 1
@@ -459,6 +530,16 @@ def run(ctx) -> None:
                         c2 = dict(case, level=level)
                         ctx.check(c2, lambda c: _run_one(ctx, c))
     ctx.sweep("part A: retry budget x answer/delay patterns x {V2,V3}", n, True)
+
+    # part D: two-page capability query, one page hit by a fault
+    dd = 0
+    for version in (2, 3):
+        for page in (0, 1):
+            for fault in ("drop", "error", "garbage", "close", "reset"):
+                dd += 1
+                if ctx.mine(dd):
+                    ctx.check({"part": "D", "version": version, "page": page, "fault": fault}, lambda c: _run_one(ctx, c))
+    ctx.sweep("part D: two-page capability query x page hit x fault x {V2,V3}", dd, True)
 
     # part A2: pairs of exchanges; the first leaves late answers behind
     k = 0
